@@ -64,7 +64,7 @@ var cores = []string{
 	"spin-cfor-empty", "spin-true-empty", "spin-forin-empty", "spin-recursion-quiet", "spin-forin-big", "spin-anon-expr", "block-recv-after-first",
 	"block-range-body-recv", "block-range-shared", "spin-fib", "spin-mutual",
 	"lib-spin-5", "lib-spin-v", "lib-block-5", "lib-block-v", "lib-spin-1", "lib-send", "lib-range", "lib-rec", "lib-closure",
-	"spin-modcopy", "block-relay-implicit", "block-relay-explicit", "block-relay-func", "spin-ptr-cycle", "spin-ptr-cycle-set",
+	"spin-modcopy", "block-relay-implicit", "block-relay-explicit", "block-relay-func", "spin-ptr-cycle", "spin-ptr-cycle-set", "spin-ptr-cycle-forin", "spin-ptr-cycle-forin-chan", "spin-ptr-ring-forin",
 	"spin-quiet-elseif", "spin-quiet-else", "spin-quiet-switch", "spin-quiet-try", "spin-quiet-nested",
 	"block-fanin-send", "block-fanout-recv",
 	"block-recv-if", "block-recv-arg", "block-recv-switch",
@@ -164,6 +164,13 @@ func renderCore(core string, u string) string {
 		return "pa" + u + " = 1\npp" + u + " = &pa" + u + "\n*pp" + u + " = pp" + u + "\nfor {\ntry { pv" + u + " = pp" + u + ".x } catch { }\ntick()\n}"
 	case "spin-ptr-cycle-set":
 		return "pa" + u + " = 1\npp" + u + " = &pa" + u + "\n*pp" + u + " = pp" + u + "\nfor {\ntry { pp" + u + ".x = 1 } catch { }\ntry { pw" + u + " = *pp" + u + " } catch { }\ntick()\n}"
+	// ... and where it unwraps the elements a for-in hands out: a slice, a channel, a ring of two pointers
+	case "spin-ptr-cycle-forin":
+		return "pa" + u + " = 1\npp" + u + " = &pa" + u + "\n*pp" + u + " = pp" + u + "\nfor {\nfor px" + u + " in [1, pp" + u + "] { tick() }\n}"
+	case "spin-ptr-cycle-forin-chan":
+		return "pa" + u + " = 1\npp" + u + " = &pa" + u + "\n*pp" + u + " = pp" + u + "\npc" + u + " = make(chan interface, 2)\nfor {\npc" + u + " <- pp" + u + "\nfor px" + u + " in pc" + u + " {\ntick()\nbreak\n}\n}"
+	case "spin-ptr-ring-forin":
+		return "pa" + u + " = 1\npb" + u + " = 2\npp" + u + " = &pa" + u + "\npq" + u + " = &pb" + u + "\n*pp" + u + " = pq" + u + "\n*pq" + u + " = pp" + u + "\nfor {\nfor pk" + u + ", px" + u + " in {\"a\": pp" + u + "} { tick() }\nfor px" + u + " in [pq" + u + "] { tick() }\n}"
 	// functions whose body contains no call, no channel operation and no loop - except one, tucked into a branch
 	case "spin-quiet-elseif":
 		return "func q" + u + "(a) {\nif a == 0 { } else if a == 1 {\nfor { }\n} else { }\nreturn a\n}\nq" + u + "(1)"
